@@ -216,10 +216,32 @@ ControlIsFinal ==
      /\ tgt = ctl.tgt
      /\ (fin.r # "run" => fin.r = (IF ctl.o = "abort" THEN "abort" ELSE "ok"))
 
-\* C13: when the program is over no pure closure parameter is left in the store
-ParamNames == {"k", "v"}
-RootAssigned == {prog[j].tg.x : j \in {i \in 1..Len(prog) : prog[i].k = "asg" /\ prog[i].tg.tk = "var"}}
-ParamsScoped == (fin.r # "run" /\ fin.r = "ok") => \A x \in ParamNames : x \in DOMAIN vars => x \in RootAssigned
+\* C13: when the program is over no pure closure parameter is left in the store. A name is a pure parameter when it is a
+\* parameter of some closure of the program and no assignment anywhere in the program targets it (an assignment to `k` in a
+\* closure whose first parameter is the placeholder `_` creates an ordinary variable, which legitimately stays).
+ChildSeq(n) ==
+  CASE n.k \in {"lit", "var", "qv", "q", "noop"} -> <<>>
+    [] n.k \in {"group", "not", "ret", "asg", "asg2"} -> <<n.e>>
+    [] n.k = "block" -> n.s
+    [] n.k = "arr" -> n.e
+    [] n.k = "obj" -> n.es
+    [] n.k = "if" -> n.c \o n.t \o (IF n.he THEN n.e ELSE <<>>)
+    [] n.k = "op" -> <<n.l, n.r>>
+    [] n.k = "abort" -> IF n.hm THEN <<n.m>> ELSE <<>>
+    [] n.k = "call" -> n.a \o (IF "cl" \in DOMAIN n THEN n.cl.s ELSE <<>>)
+    [] OTHER -> <<>>
+RECURSIVE AssignedIn(_)
+AssignedIn(n) ==
+  (IF n.k = "asg" /\ n.tg.tk = "var" THEN {n.tg.x}
+   ELSE IF n.k = "asg2" THEN (IF n.ok.tk = "var" THEN {n.ok.x} ELSE {}) \cup (IF n.er.tk = "var" THEN {n.er.x} ELSE {})
+   ELSE {})
+  \cup UNION {AssignedIn(ChildSeq(n)[j]) : j \in 1..Len(ChildSeq(n))}
+RECURSIVE ParamsIn(_)
+ParamsIn(n) ==
+  (IF n.k = "call" /\ "cl" \in DOMAIN n THEN {n.cl.p[j] : j \in 1..Len(n.cl.p)} ELSE {})
+  \cup UNION {ParamsIn(ChildSeq(n)[j]) : j \in 1..Len(ChildSeq(n))}
+PureParams == (UNION {ParamsIn(prog[j]) : j \in 1..Len(prog)}) \ ((UNION {AssignedIn(prog[j]) : j \in 1..Len(prog)}) \cup {""})
+ParamsScoped == (fin.r = "ok") => \A x \in PureParams : x \notin DOMAIN vars
 
 \* one line per finished behaviour, for the replay
 Predict == fin.r # "run" =>
